@@ -381,7 +381,66 @@ def check_python_vary(lib, spec):
     return not bad, {"expected": ref, "mismatches": bad[:4]}
 
 
-CHECKS = {"constructor": check_constructor, "trajectory": check_trajectory, "rescale": check_rescale, "megno": check_megno, "megno_order": check_megno_order, "python_vary": check_python_vary}
+def apply_ops(rb, sim, ops):
+    """frame operations between initialisation and integration"""
+    for op in ops:
+        if op[0] == "com":
+            sim.move_to_com()
+        elif op[0] == "hel":
+            sim.move_to_hel()
+        elif op[0] == "rot":
+            sim.rotate(rb.Rotation(angle=op[1], axis=op[2]))
+        else:
+            raise RuntimeError("unknown op %r" % (op,))
+
+
+def check_multiset(lib, spec):
+    """2-4 first-order variation sets in one simulation (any order, mass variations included), frame operations applied after
+    the sets were initialised, then integration: EVERY set must equal the centred finite difference of real simulations that
+    went through the same operation sequence with that set's parameter perturbed."""
+    rb = lib.rb
+    base = {"integrator": spec["integrator"], "system": spec["system"], "order": 1}
+    subs = []
+    for x, idx in spec["sets"]:
+        sp = dict(base, x=x, index=idx)
+        if not (x in C6 or x == "mcart"):
+            sp["fam"] = family(x)
+            sp["_el"] = elements_of(lib, sp)
+        if x == "mcart":
+            sp["x"] = "m"
+            sp["cartesian_m"] = True
+        subs.append(sp)
+    sim = setup(lib, dict(base, x="x", index=1), {})
+    nreal = sim.N
+    vs = []
+    for sp in subs:
+        v = sim.add_variation()
+        if sp["x"] in C6 or sp.get("cartesian_m"):
+            setattr(v.particles[sp["index"]], sp["x"], 1.0)
+        else:
+            v.vary(sp["index"], sp["x"])
+        vs.append(v)
+    apply_ops(rb, sim, spec["ops"])
+    run_to(sim, base)
+    worst_all, bad = 0.0, []
+    for k, (sp, v) in enumerate(zip(subs, vs)):
+        got = sum((vec(v.particles[i]) for i in range(nreal)), [])
+
+        def F(shift, sp=sp):
+            t = setup(lib, sp, shift)
+            apply_ops(rb, t, spec["ops"])
+            run_to(t, base)
+            return sum((vec(t.particles[i]) for i in range(nreal)), [])
+        el = sp.get("_el") or {"a": 1.0}
+        h = {"a": 1e-3 * el.get("a", 1.0), "m": 1e-5}.get(sp["x"], 1e-3)
+        ref, err = richardson(fd1(F, sp["x"], h), 1.0, levels=2)
+        ok, worst, tol, scale = judge(got, ref, err, 1e-6)
+        if not ok:
+            bad.append({"set": k, "param": spec["sets"][k], "worst": worst, "tolerance": tol, "got": got[:9], "finite_difference": ref[:9]})
+    return not bad, {"failing_sets": bad[:3], "n_sets": len(subs)}
+
+
+CHECKS = {"constructor": check_constructor, "trajectory": check_trajectory, "rescale": check_rescale, "megno": check_megno, "megno_order": check_megno_order, "python_vary": check_python_vary, "multiset": check_multiset}
 
 
 def pairs_available(lib):
@@ -466,6 +525,36 @@ def search(ctx, rebound, libdir):
         x = rng.choice(C6[:3])
         do("trajectory", {"integrator": integ, "system": base_system(rng), "x": x, "y": x, "order": 2, "index": 3,
                           "testparticle_class": "massless", "tp_variation": True}, ("t2tp", integ))
+
+    # (b') several variation sets in one simulation + frame operations after their initialisation
+    ms_params = C6 + ["mcart", "m", "a", "e", "inc", "omega", "f", "lambda", "h", "k"]
+    for rep in range(ctx.scale(10, 120)):
+        nset = rng.choice([2, 2, 3, 4])
+        sets = [(rng.choice(ms_params), rng.choice([1, 2])) for _ in range(nset)]
+        if rep % 2 == 0:                 # at least one mass variation, at a random place in the order
+            sets[rng.randrange(nset)] = (rng.choice(["m", "mcart"]), rng.choice([1, 2]))
+        ops = []
+        for _ in range(rng.choice([1, 1, 2, 3])):
+            # move_to_hel leaves the variational particles alone (source comment), which is right only while the variation of
+            # particle 0 is zero, i.e. before any move_to_com; the other case is probed under its own key below
+            o = rng.choice(["com", "com", "hel", "rot"] if not any(q[0] == "com" for q in ops) else ["com", "rot"])
+            ops.append(("rot", rng.uniform(-3, 3), [rng.gauss(0, 1), rng.gauss(0, 1), rng.gauss(0, 1)]) if o == "rot" else (o,))
+        do("multiset", {"integrator": rng.choice(["ias15", "ias15", "bs"]), "system": base_system(rng), "sets": sets, "ops": ops},
+           ("multi", nset, "+".join(o[0] for o in ops)))
+
+    # move_to_hel after move_to_com (variation of particle 0 non-zero): open finding move_to_hel_ignores_variations
+    spec = {"integrator": "ias15", "system": base_system(rng), "sets": [("a", 1), ("m", 2)], "ops": [("com",), ("hel",)]}
+    try:
+        ok, det = check_multiset(lib, spec)
+    except Inconclusive:
+        ok, det = True, {}
+    except Exception as e:
+        ok, det = False, {"exception": repr(e)}
+    ctx.case(key=("multiset", "com+hel"))
+    if not ok:
+        ctx.violation("move_to_hel_ignores_variations", {"check": "multiset", "spec": spec, "detail": det}, True,
+                      "reb_simulation_move_to_hel does not move the variational particles: after it they are no longer the "
+                      "derivative of the (shifted) state when the variation of particle 0 is non-zero")
 
     # (c) rescaling and chaos indicators
     for integ, sm in (("ias15", None), ("whfast", 1), ("whfast", 0), ("leapfrog", None)):
